@@ -402,7 +402,7 @@ def tokens(r, ast, st, parent_prec=0):
         toks = [("!", "!")] + sub
         need = parent_prec > PREC["not"]
     else:
-        jux = k == "and" and r.random() < 0.4
+        jux = k == "and" and r.random() < (0.7 if st.get("tight") else 0.4)
         if jux:
             st["jux"] = True
             bare_jux = True
@@ -455,10 +455,27 @@ def nested_jux(toks):
     return False
 
 
+def tight_jux_ok(left, right):
+    """May the whitespace between two juxtaposed terms be dropped?  (left = kind of the token that ends the left term,
+    right = kind of the token that starts the right term.)  Yes wherever the reserved characters ~ ( ) ' " already end the
+    left token: an operator name, a numeric code, an unquoted regex, a closing quote or parenthesis, directly followed by
+    ~operator, an opening parenthesis or a quote.  Not where the two would fuse into one token: an unquoted regex followed
+    by ! or by another unquoted regex, an operator name or a code followed by an unquoted regex."""
+    if right in ("unary", "opa", "(", "quoted"):
+        return left in ("unary", "num", "word", "quoted", ")")
+    if right == "!":
+        return left in ("unary", "num", "quoted", ")")
+    if right == "word":
+        return left in ("quoted", ")")
+    return False
+
+
 def layout(r, toks, st):
     """Whitespace after each token (list parallel to toks).  A juxtaposition is a token with empty text; the whitespace
-    that separates its operands is placed *before* it, so that spelling it as an explicit & later changes nothing else."""
+    that separates its operands is placed *before* it, so that spelling it as an explicit & later changes nothing else.
+    st["tight"]: drop every whitespace that is not needed to keep the tokens apart."""
     gaps = []
+    tight = st.get("tight", False)
     for n, (kind, _) in enumerate(toks):
         if n + 1 >= len(toks):
             gaps.append("")
@@ -471,14 +488,14 @@ def layout(r, toks, st):
         required = False
         if kind == "opa":
             required = True
-        elif kind == "word" and nxt != ")":
-            required = True  # an unquoted regex runs up to the next whitespace or parenthesis
         elif nk == "jux":
-            # juxtaposition: whitespace, unless both neighbours are self-delimiting
-            required = not (kind in (")", "quoted") and nxt in ("(", "quoted") and r.random() < 0.3)
+            required = not (tight_jux_ok(kind, nxt) and (tight or r.random() < 0.3))
             if not required:
                 st["tight_jux"] = True
-        if required or r.random() < 0.5:
+                st.setdefault("tight_pairs", []).append((kind, nxt))
+        elif kind == "word" and nxt != ")":
+            required = True  # an unquoted regex runs up to the next whitespace or parenthesis: it would swallow & | !
+        if required or (not tight and r.random() < 0.5):
             gaps.append(r.choice(WS))
         else:
             gaps.append("")
@@ -492,6 +509,7 @@ def assemble(toks, gaps, tight_unary=True, nested_jux_as_amp=False):
     juxtaposition inside parentheses as an explicit & (same documented meaning); nothing else changes."""
     out = []
     d = 0
+    prev = (None, " ")
     for (kind, text), gap in zip(toks, gaps):
         if kind == "(":
             d += 1
@@ -499,6 +517,9 @@ def assemble(toks, gaps, tight_unary=True, nested_jux_as_amp=False):
             d -= 1
         if kind == "jux":
             text = "&" if (nested_jux_as_amp and d > 0) else ""
+            if text and prev == ("word", ""):
+                text = " &"  # an unquoted regex would swallow the &
+        prev = (kind, gap)
         out.append(text)
         if kind == "unary" and not tight_unary and not gap:
             gap = " "
@@ -508,7 +529,7 @@ def assemble(toks, gaps, tight_unary=True, nested_jux_as_amp=False):
 
 def new_state(r, redundant_p=None):
     return {"quoting": set(), "leafkinds": set(), "jux": False, "redundant": 0, "tight_unary": False, "tight_jux": False,
-            "redundant_p": r.choice([0.0, 0.05, 0.15]) if redundant_p is None else redundant_p}
+            "redundant_p": r.choice([0.0, 0.05, 0.15]) if redundant_p is None else redundant_p, "tight": r.random() < 0.3, "tight_pairs": []}
 
 
 def render(r, ast, max_nesting=3):
